@@ -240,7 +240,29 @@ inline void permute_spec(GraphSpec &g) {
     g = h;
 }
 
+// profile "gnp-wide" (env VERIF_PROFILE): moderate-size random graphs G(n,p) with wide, tie-poor integer weights -
+// the class in which pruning limits, hidden-edge bookkeeping and sorted-candidate shortcuts of the exact algorithms matter
+inline GraphSpec gen_gnp_wide(const GenOpts &o, WDom dom) {
+    GraphSpec g;
+    int lo = std::min(o.maxN, std::max(6, o.maxN / 2));
+    g.n = pick(lo, o.maxN);
+    static const int ps[] = {12, 20, 30, 45, 60};
+    int p = ps[pick(0, 4)];
+    for (int i = 0; i < g.n; i++) for (int j = i + 1; j < g.n; j++) if (coin(p) && g.m() < o.maxM) {
+        if (coin(50)) g.edges.push_back({i, j}); else g.edges.push_back({j, i});
+    }
+    int wmax = coin(50) ? 100 : (coin(50) ? 1000 : 20);
+    for (int i = 0; i < g.m(); i++) g.w.push_back((double) pick(1, wmax));
+    (void) dom;
+    if (coin(70)) permute_spec(g);
+    return g;
+}
+
 inline GraphSpec gen_graph_raw(const GenOpts &o, WDom dom) {
+    {
+        static const char *prof = getenv("VERIF_PROFILE");
+        if (prof && std::string(prof) == "gnp-wide" && (dom == WDom::Exact || dom == WDom::ExactInt)) return gen_gnp_wide(o, dom);
+    }
     ShapeBuilder sb;
     int total_n;
     {
